@@ -314,7 +314,7 @@ def _lower_once(text, ctr, log, ctx):
         a, b, repl, orig = m
         log.append(("R13", orig))
         return text[:a] + repl + text[b:]
-    chains = find_chains(text, {"fold", "unwrap_or", "any", "all", "position", "unwrap", "collect", "retain", "for_each", "install", "unwrap_or_else", "expect"})
+    chains = find_chains(text, {"fold", "unwrap_or", "any", "all", "position", "unwrap", "collect", "retain", "for_each", "install", "unwrap_or_else", "expect", "map"})
     for ch in chains:
         ms = ch.methods()
         r = None
@@ -354,6 +354,13 @@ def _lower_once(text, ctr, log, ctx):
         elif ms and ms[-1] == "expect" and ch.segs[-1].kind == "method":
             r = "vx_unwrap(" + ch.prefix_text(len(ch.segs) - 1) + ")"
             rule = "R8"
+        if r is None and "map" in ms and not (set(ms) & _ITER_SEGS) and not _range_primary(ch):
+            # R19: Option::map  ->  match  (first `map` segment of the chain; later ones are handled in the next rounds)
+            k = [i for i, sg in enumerate(ch.segs) if sg.kind == "method" and sg.name == "map"][0]
+            r19 = _r19(ch, k, ctr)
+            if r19 is not None:
+                log.append(("R19", ch.text[ch.start:ch.segs[k].span[1]]))
+                return text[:ch.start] + r19 + text[ch.segs[k].span[1]:]
         if r is not None:
             log.append((rule, ch.src()))
             if rule not in ("R12", "R11", "R8"):
@@ -469,6 +476,26 @@ def _r6b(ch, ctr):
     return ("{\n let mut best_%d: Option<usize> = None;\n let mut bk_%d: usize = 0;\n /*@L:R6*/ while bk_%d < %s.len()\n {\n let bv_%d = %s;\n"
             " match best_%d { Some(b) => { if bv_%d >= b { best_%d = Some(bv_%d); } } None => { best_%d = Some(bv_%d); } }\n bk_%d += 1;\n }\n"
             " match best_%d { Some(b) => b, None => %s }\n}") % (n, n, n, recv, n, call, n, n, n, n, n, n, n, n, d)
+
+
+_ITER_SEGS = {"iter", "iter_mut", "into_iter", "vx_iter", "chain", "filter", "flatten", "cloned", "collect", "fold", "find", "max", "par_iter_mut", "zip", "rev", "enumerate", "position", "any", "all"}
+
+
+def _r19(ch, k, ctr):
+    """OPT.map(F)  ->  match OPT { Some(v) => Some(F applied to v), None => None }"""
+    seg = ch.segs[k]
+    recv = ch.prefix_text(k)
+    arg = _arg(ch, seg).strip()
+    n = ctr.next("R19")
+    cl = parse_closure(arg)
+    if cl is not None:
+        pat, body, _ = cl
+        app = "{ let %s = ov_%d; %s }" % (pat, n, body)
+    else:
+        if not re.match(r"^[A-Za-z_][A-Za-z0-9_:<>]*$", arg):
+            return None
+        app = "%s(ov_%d)" % (arg, n)
+    return "(match %s { Some(ov_%d) => Some(%s), None => None })" % (recv, n, app)
 
 
 def _r7(ch, ctr):
